@@ -383,6 +383,9 @@ fn adapt_op(op: &str, rate: f64, src: &mut GenerationSource) -> String {
         "mb" => opt(mk_mutator(&a[1].replace('.', ":")).mutate_bytes(unhex(a[2]), src, rate), |x| hex(&x)),
         "mm" => opt(mk_mutator(&a[1].replace('.', ":")).mutate_memo_index(hexu(a[2]) as usize, src, rate), |x| format!("{:x}", x)),
         // the generator's own dispatch over a LIST of mutators ('+' separated): first one that fires wins
+        #[cfg(not(feature = "ext"))]
+        "di" | "df" | "ds" | "db" | "dm" => "unsupported-without-ext-hooks".to_string(),
+        #[cfg(feature = "ext")]
         "di" | "df" | "ds" | "db" | "dm" => {
             let mut g = Generator::new(Version::V2).with_mutators(a[1].split('+').map(|n| mk_mutator(&n.replace('.', ":"))).collect());
             g.mutation_rate = rate;
@@ -454,6 +457,7 @@ fn adapt_case(line: &str) -> Vec<String> {
 /// the state is built by hand (kinds of the stack slots bottom to top, memo entries), then (a) the candidate set,
 /// (b) for every listed opcode - candidate or not - one emission on the given fuzzer bytes from a fresh copy of that
 /// state: appended bytes, simulated state afterwards, bytes left; (c) the collapse tail + STOP from that state
+#[cfg(feature = "ext")]
 fn s8_case(line: &str) -> Vec<String> {
     let m = kv(line);
     let mut out = vec![format!("CASE {}", line)];
@@ -527,6 +531,7 @@ fn s8_case(line: &str) -> Vec<String> {
 /// `path=OP;OP;..` (the opcodes a traced run emitted before the disagreeing step) is applied through the hook `emit_one` -
 /// same opcodes, hence the same aliasing between cells, arguments drawn from zeros -, then `final=OP` must be among the
 /// candidates the implementation offers and is emitted, then the collapse tail and STOP: CASE / RESULT ok <whole output> / END
+#[cfg(feature = "ext")]
 fn steer_case(line: &str) -> Vec<String> {
     let m = kv(line);
     let mut out = vec![format!("CASE {}", line)];
@@ -762,6 +767,7 @@ fn cmd_deepcase(path: &str, stack_kb: usize) {
 /// `emit_one`, so no candidate list decides what comes next), and the guards (`valid_opcodes` = can_emit for every opcode,
 /// as the generation loop evaluates it before every step) are evaluated on the way and on the final state; then the
 /// collapse tail, STOP and the teardown - all on a thread with `stack_kb` KiB of stack.
+#[cfg(feature = "ext")]
 fn cmd_deeppath(v: usize, stack_kb: usize, path: &str) {
     let path = path.to_string();
     let run = move || {
@@ -959,6 +965,7 @@ fn main() {
             let _ = std::panic::take_hook();
             cmd_deep(a[2].parse().unwrap(), a[3].parse().unwrap(), a[4].parse().unwrap())
         }
+        #[cfg(feature = "ext")]
         Some("deeppath") => {
             let _ = std::panic::take_hook();
             cmd_deeppath(a[2].parse().unwrap(), a[3].parse().unwrap(), &a[4])
@@ -974,8 +981,12 @@ fn main() {
         }
         Some("adapt") => cmd_lines(&a[2], adapt_case),
         Some("hist") => cmd_lines(&a[2], hist_case),
+        #[cfg(feature = "ext")]
         Some("s8") => cmd_lines(&a[2], s8_case),
+        #[cfg(feature = "ext")]
         Some("steer") => cmd_lines(&a[2], steer_case),
+        // which hooks this binary was built with
+        Some("hooks") => println!("{}", if cfg!(feature = "ext") { "ext" } else { "core" }),
         Some("words") => cmd_words(a[2].parse().unwrap(), a[3].parse().unwrap()),
         _ => {
             eprintln!("usage: pf-harness trace <cases> [threads] | adapt <cases> | hist <cases> | words <seed> <n>");
